@@ -118,7 +118,7 @@ func main() {
 	r.Require("link_skipped_between_deliveries", 30)
 	r.Require("link_all_delivered", 100)
 	r.Assume("'allocates' is measured as bytes obtained in large objects (> 32 KiB: one make/growslice sized by a count) during one ReadMessage; allowance for L payload bytes = header + L + 256·L + 64 KiB; the small-object garbage of honest work on bytes that are present (big.Int arithmetic of public-key decompression) is not counted; for the rejected-before-the-buffer clause (wrong magic, oversized length) the total is measured instead and must stay ≤ 4 KiB")
-	r.Assume("allocation-volume oracle: the bytes one ReadMessage allocates (runtime.MemStats.TotalAlloc, and its part in objects above the largest reported size class; GOMAXPROCS=1, one goroutine) for a payload whose count/length field claims more than the payload holds must stay ≤ 4 × what the same tree allocates for the well-formed payload of the same type, shape and length it was derived from (every count truthful; measured in the same process) + 64 KiB + 4 × one public-key decode, and ≤ 16 × MAX_PAYLOAD_LEN; an excess is re-measured twice and the minimum decides")
+	r.Assume("allocation-volume oracle: the bytes one ReadMessage allocates (runtime.MemStats.TotalAlloc, and its part in objects above the largest reported size class; GOMAXPROCS=1, one goroutine) for a payload whose count/length field claims more than the payload holds must stay ≤ 4 × what the same tree allocates for the well-formed payload it was derived from or for the densest well-formed payload of that type scaled to the same length, whichever is larger (every count truthful; measured in the same process) + 64 KiB + 4 × one public-key decode, and ≤ 16 × MAX_PAYLOAD_LEN; an excess is re-measured twice and the minimum decides")
 	r.Assume("link family: Link.Rx, CloseConn and Send run in goroutines of a child process over net.Pipe / loopback TCP; sleeps and yields shape the interleaving only; Rx may drop unknown commands and repeated getdata requests, and a closed link delivers a prefix, so the delivered frames are required to be a subsequence (in sending order) of the sent frames, each byte-identical when re-serialized after the schedule has ended")
 	r.Assume("domain notes (documented decoder leniencies, checked with a weaker clause and counted as exempt:*): addr/inv clamp to 64 entries; version without/with unreadable SoftVersion; block body that ends before MerkleRoot‖hasCCMsg or has an unreadable flag (\"to accept old node's block\")")
 	r.Assume("'reproduces the payload' is read as: re-serialization equals the prefix of the payload the type's decoder consumed (trailing bytes are ignored by ReadMessage by design)")
